@@ -180,7 +180,7 @@ namespace sqf::runtime
         {
             if (m_position == position_invalid)
             {
-                return (*m_instruction_set.begin())->diag_info();
+                return m_instruction_set.size() == 0 ? sqf::runtime::diagnostics::diag_info{} : (*m_instruction_set.begin())->diag_info();
             }
             else if (m_position == m_instruction_set.size())
             {
